@@ -34,7 +34,8 @@ void h_file_block_size(void)
 	unsigned r;
 	data_off_t begin, end;
 	VERIF_INPUTS();
-	VERIF_ASSUME(IN.size >= 0 && IN.size <= ((data_off_t)1 << 50));
+	/* positions are 32-bit block numbers (block_off_t): a file cannot have more than 2^32-2 blocks */
+	VERIF_ASSUME(IN.size >= 0 && IN.size <= ((data_off_t)0xfffffffeu << BLOCK_SHIFT));
 	F.size = IN.size;
 	F.blockmax = (IN.size + bs - 1) / bs; /* file_alloc's rule, restated */
 	VERIF_ASSUME(IN.pos < F.blockmax);
